@@ -1153,6 +1153,71 @@ theorem dot_expandEq : ∀ (s : Shape) (i st : List Nat), dot i (expandStridesEq
     simp only [expandStridesEq, projEq, dot, dot_expandEq s i st]
     split <;> simp
 
+/-! ### permuted views (pass 10): `Σ_k i[k]·st[p[k]] = Σ_a i[p⁻¹ a]·st[a]` through `List.Perm.sum_nat` -/
+
+theorem dot_map_idx (g : Nat → Nat) : ∀ (p i : List Nat), p.Nodup → i.length = p.length →
+    dot i (p.map g) = (p.map (fun a => i.getD (p.idxOf a) 0 * g a)).sum
+  | [], [], _, _ => by simp [dot]
+  | [], _ :: _, _, h => by simp at h
+  | _ :: _, [], _, h => by simp at h
+  | a :: p, x :: i, hn, h => by
+    have hn' := List.nodup_cons.mp hn
+    have ih := dot_map_idx g p i hn'.2 (by simpa using h)
+    have hc : (p.map (fun b => (x :: i).getD ((a :: p).idxOf b) 0 * g b)) = (p.map (fun b => i.getD (p.idxOf b) 0 * g b)) := by
+      apply List.map_congr_left
+      intro b hb
+      have hne : (a == b) = false := by
+        simp only [beq_eq_false_iff_ne, ne_eq]
+        exact fun e => hn'.1 (e ▸ hb)
+      simp [List.idxOf_cons, hne]
+    simp only [List.map_cons, dot, List.sum_cons, ih, hc]
+    simp
+
+theorem dot_range' (h : Nat → Nat) : ∀ (n s : Nat) (st : List Nat), st.length = n →
+    dot ((List.range' s n).map h) st = ((List.range' s n).map (fun a => h a * st.getD (a - s) 0)).sum
+  | 0, s, st, _ => by simp [dot]
+  | n + 1, s, [], hl => by simp at hl
+  | n + 1, s, y :: st, hl => by
+    have ih := dot_range' h n (s + 1) st (by simpa using hl)
+    have hc : ((List.range' (s + 1) n).map (fun a => h a * (y :: st).getD (a - s) 0)) = ((List.range' (s + 1) n).map (fun a => h a * st.getD (a - (s + 1)) 0)) := by
+      apply List.map_congr_left
+      intro a ha
+      have := (List.mem_range'_1.mp ha).1
+      have e : a - s = (a - (s + 1)) + 1 := by omega
+      rw [e]; simp
+    simp only [List.range'_succ, List.map_cons, dot, List.sum_cons, ih, hc]
+    simp
+
+theorem dot_permute (p i st : List Nat) (hp : p.Perm (List.range st.length)) (hi : i.length = p.length) :
+    dot i (p.map (fun a => st.getD a 0)) = dot (unpermute p i) st := by
+  have hnd : p.Nodup := hp.nodup_iff.mpr List.nodup_range
+  have hlen : p.length = st.length := by simpa using hp.length_eq
+  rw [dot_map_idx _ p i hnd hi]
+  rw [(hp.map (fun a => i.getD (p.idxOf a) 0 * st.getD a 0)).sum_nat]
+  unfold unpermute
+  rw [hlen, List.range_eq_range', dot_range' _ st.length 0 st rfl]
+  simp
+
+/-! a list of length `n` that contains every `a < n` is a permutation of `0 … n-1` (erase induction: no counting, no `Nodup`) -/
+
+theorem perm_range_of_cover : ∀ (n : Nat) (p : List Nat), p.length = n → (∀ a, a < n → a ∈ p) → p.Perm (List.range n)
+  | 0, p, hl, _ => by
+    have : p = [] := List.length_eq_zero_iff.mp hl
+    simp [this]
+  | n + 1, p, hl, hc => by
+    have hn : n ∈ p := hc n (Nat.lt_succ_self n)
+    have h1 : p.Perm (n :: p.erase n) := List.perm_cons_erase hn
+    have hl' : (p.erase n).length = n := by rw [List.length_erase_of_mem hn, hl]; rfl
+    have hc' : ∀ a, a < n → a ∈ p.erase n := fun a ha =>
+      (List.mem_erase_of_ne (Nat.ne_of_lt ha)).mpr (hc a (Nat.lt_succ_of_lt ha))
+    have ih := perm_range_of_cover n (p.erase n) hl' hc'
+    rw [List.range_succ]
+    exact h1.trans ((List.Perm.cons n ih).trans (List.perm_append_singleton n (List.range n)).symm)
+
+theorem isPerm_perm {p : List Nat} {n : Nat} (h : isPerm p n = true) : p.Perm (List.range n) := by
+  simp only [isPerm, Bool.and_eq_true, beq_iff_eq, List.all_eq_true, List.mem_range] at h
+  exact perm_range_of_cover n p h.1 (fun a ha => by simpa using h.2 a ha)
+
 namespace Retain
 
 
